@@ -122,7 +122,7 @@ def space_B():
                 if not sc and not au and ":" in p.split("/")[0]:
                     continue
                 for q in ("", "?y=2"):
-                    for f in ("", "#s"):
+                    for f in ("", "#s", "#%FF%2f%7e", "#a%20b%23"):
                         refs.append(sc + au + p + q + f)
     return list(dict.fromkeys(bases)), list(dict.fromkeys(refs))
 
